@@ -163,6 +163,7 @@ class FilesLeg(object):
                 "sort_attribute_values": draw(st.integers(0, 6)) == 0,
                 "gtf_infer": gtf_infer,
                 "final_newline": draw(st.integers(0, 5)) > 0,
+                "input": draw(st.sampled_from(["plain", "plain", "plain", "crlf", "gz-crlf"])),
             }
 
         return case().filter(_domain_ok)
@@ -200,6 +201,14 @@ class FilesLeg(object):
         n = len(recs)
         text = render_file(case)
         path = ctx.write("in.gff", text)
+        if case.get("input") == "gz-crlf":
+            import gzip
+
+            path = ctx.path("in.gff.gz")
+            with gzip.open(path, "wb") as fh:
+                fh.write(text.replace("\n", "\r\n").encode("utf-8"))
+        elif case.get("input") == "crlf":
+            path = ctx.write("in_crlf.gff", text.replace("\n", "\r\n"))
         kwargs = dict(
             checklines=case["checklines"],
             merge_strategy=case["merge_strategy"],
